@@ -19,6 +19,9 @@ EXEMPT = {
         'child built for a BaseDataType value: typed by the value object (datatype=value.classname), not by a structure',
     ('core.Message.parse_children', '_find_structure', 'reference'):
         'an unknown message becomes known from its text: no profile can have been attached to an unnamed message',
+    ('parser.parse_segments', 'parse_segment', 'reference'):
+        ('the group search found no place for this segment at any level of the structure: there is no reference to pass',
+         lambda node, bctx: bctx.startswith('loop-else of')),
     ('parser.parse_message', 'Message', 'reference'):
         ('unknown-structure fall-back after InvalidName: no structure exists to take a reference from',
          lambda node, bctx: bctx.startswith('except InvalidName')),
